@@ -16,6 +16,7 @@ pub mod redact;
 pub mod sign;
 pub mod stateres;
 pub mod uri;
+mod enumord;
 pub mod wire;
 pub mod xmatrix;
 
@@ -65,6 +66,7 @@ fn run_inner(name: &str, tier: &str) -> Option<Value> {
         "sign" => sign::run(tier).to_json(),
         "stateres" => stateres::run(tier).to_json(),
         "uri" => uri::run(tier).to_json(),
+        "enumord" => enumord::run(tier).to_json(),
         _ => return None,
     })
 }
